@@ -428,6 +428,33 @@ def interp_dw(S, npts, symbolic, symdim=None):
     _same(S, res[1], res[0], 'interp:large-grid-interpolation-equals-small-grid-interpolation-(dimension-wise)')
 
 
+def interp_dw_two(S, npts, symdim=None):
+    """ONE operation object interpolates with the large-grid code on a first refinement tree and then on a second one (a refinement of the first,
+    as in consecutive refinement steps); the second result equals the small-grid interpolation of a fresh object."""
+    dim = len(npts)
+    st2, lv2 = _tree_stripes(S, npts)
+    st1, lv1 = _coarser(S, st2, lv2)
+    n2 = int(np.prod(npts))
+    n1 = int(np.prod([len(s) - 2 for s in st1]))
+    alphas1 = [S.real('beta%d' % i) for i in range(n1)]
+    alphas2 = [S.real('alpha%d' % i) for i in range(n2)]
+    x = _eval_point(S, st2, symdim)
+    pts = np.array(x, dtype=object if S.lifted else float)
+    lv = tuple([1] * dim)
+
+    def interp(op, T, stripes, levels, alphas):
+        op.surpluses = {lv: np.array(alphas, dtype=object if S.lifted else float)}
+        op.grid.set_grid([list(s) for s in stripes], [list(l) for l in levels])
+        with threshold(T, ['interpolate_points_component_grid']):
+            return op.interpolate_points_component_grid(_CG(lv), [np.array(s, dtype=object if S.lifted else float) for s in stripes], pts)
+
+    op = _dw_op(S, dim, False)
+    interp(op, LARGE, st1, lv1, alphas1)
+    got = interp(op, LARGE, st2, lv2, alphas2)
+    want = interp(_dw_op(S, dim, False), SMALL, st2, lv2, alphas2)
+    _same(S, got, want, 'interp:large-grid-interpolation-on-a-second-grid-of-the-same-object-equals-small-grid-interpolation')
+
+
 def interp_uniform(S, levelvec, symdim=None):
     dim = len(levelvec)
     n = int(np.prod([2 ** l - 1 for l in levelvec]))
@@ -517,6 +544,9 @@ def jobs(tier):
         for sd in ([None] if len(npts) == 1 else range(len(npts))):
             js.append(Job('interp-dw[n=%s,%s,x=%s]' % ('x'.join(map(str, npts)), 'symgeom' if symb else 'trees', 'sym' if sd is None else 'sym-in-dim-%d' % sd), interp_dw,
                           {'npts': list(npts), 'symbolic': symb, 'symdim': sd}, **kw))
+    for npts in ([(3,), (4,), (3, 2)] if q else [(3,), (4,), (5,), (3, 2), (3, 3)]):
+        for sd in ([None] if len(npts) == 1 else range(len(npts))):
+            js.append(Job('interp-dw-two[n=%s,x=%s]' % ('x'.join(map(str, npts)), 'sym' if sd is None else 'sym-in-dim-%d' % sd), interp_dw_two, {'npts': list(npts), 'symdim': sd}, **kw))
     for lv in ([(1,), (2,), (3,), (2, 1), (2, 2)] if q else [(1,), (2,), (3,), (4,), (2, 1), (2, 2), (3, 2), (2, 2, 1)]):
         for sd in ([None] if len(lv) == 1 else range(len(lv))):
             js.append(Job('interp-uniform[l=%s,x=%s]' % ('x'.join(map(str, lv)), 'sym' if sd is None else 'sym-in-dim-%d' % sd), interp_uniform, {'levelvec': list(lv), 'symdim': sd}, **kw))
